@@ -29,7 +29,7 @@ import (
 	"github.com/ontio/ontology/core/types"
 	"pgregory.net/rapid"
 
-	"verifharness/internal/fix"
+	fix "verifharness/codec/fixlite"
 	"verifharness/internal/harn"
 )
 
@@ -399,7 +399,7 @@ const c19Rule = "signed deploy/invoke(neo,wasm) txs (payload lengths at varuint 
 func TestC19_ValidAndSigEdits(t *testing.T) {
 	ev := harn.For("C19").Rule(c19Rule)
 	ev.Floor("sigedit:decoded", "sigedit", 0.5)
-	harn.Check(t, 2500, 120000, func(t *rapid.T) {
+	harn.Check(t, 2500, 60000, func(t *rapid.T) {
 		g := c19GenOntTx(t, 4)
 		// reference encoding from the generated (not decoded) unsigned fields
 		refU := g.fields.unsigned().b
@@ -566,7 +566,7 @@ func TestC19_Mutants(t *testing.T) {
 	ev := harn.For("C19").Rule(c19Rule)
 	ev.Floor("mutant:decoded", "mutant", 0.15)
 	ev.Floor("mutant:nonminimal", "mutant", 0.08)
-	harn.Check(t, 2500, 150000, func(t *rapid.T) {
+	harn.Check(t, 5000, 100000, func(t *rapid.T) {
 		g := c19GenOntTx(t, 3)
 		full := g.fields.full()
 		uLen := len(g.fields.unsigned().b)
@@ -755,7 +755,7 @@ func c19NonCanonRLP(t *rapid.T, enc []byte) ([]byte, string) {
 func TestC19_EIP155(t *testing.T) {
 	ev := harn.For("C19").Rule(c19Rule)
 	ev.Floor("eip:accepted", "eip", 0.5)
-	harn.Check(t, 2500, 120000, func(t *rapid.T) {
+	harn.Check(t, 2500, 60000, func(t *rapid.T) {
 		checkChain := rapid.Bool().Draw(t, "checkChainID")
 		types.CheckChainID = checkChain
 		defer func() { types.CheckChainID = false }()
@@ -872,7 +872,7 @@ func TestC19_EIP155(t *testing.T) {
 
 func TestC19_SizeLimit(t *testing.T) {
 	ev := harn.For("C19").Rule(c19Rule)
-	harn.Check(t, 120, 4000, func(t *rapid.T) {
+	harn.Check(t, 120, 1500, func(t *rapid.T) {
 		delta := rapid.SampledFrom([]int{-2, -1, 0, 1, 2, 3, 100, 70000}).Draw(t, "delta")
 		total := types.MAX_TX_SIZE + delta
 		kind := rapid.IntRange(0, 3).Draw(t, "kind")
@@ -993,7 +993,7 @@ func TestC19_Arbitrary(t *testing.T) {
 	if len(seeds) != 5 {
 		t.Fatalf("harness: only %d of 5 seed transactions could be built", len(seeds))
 	}
-	harn.Check(t, 20000, 1000000, func(t *rapid.T) {
+	harn.Check(t, 20000, 600000, func(t *rapid.T) {
 		var b []byte
 		switch rapid.IntRange(0, 3).Draw(t, "shape") {
 		case 0:
